@@ -69,6 +69,8 @@ enum Cmd {
         kind: u8,
         id: Id,
         reply: mpsc::Sender<Result<bool, ()>>,
+        /// what try_sink().is_some() / is_attached() say on this thread right before the append
+        probe: mpsc::Sender<(bool, bool)>,
     },
     /// attach on this thread; the handle stays with the thread until DropAttach
     Attach {
@@ -85,6 +87,7 @@ trait Glob {
     fn g_try_append(e: TestE) -> Result<(), TestE>;
     fn g_append(e: TestE);
     fn sink_append(e: TestE);
+    fn has_sink() -> (bool, bool);
     fn set_tl(s: BoxEntrySink) -> ThreadLocalTestSinkGuard;
     fn set_rt(h: &tokio::runtime::Handle, s: BoxEntrySink) -> TokioRuntimeTestSinkGuard;
 }
@@ -102,6 +105,9 @@ macro_rules! impl_glob {
             }
             fn sink_append(e: TestE) {
                 <$g as GlobalEntrySink>::sink().append_any(e)
+            }
+            fn has_sink() -> (bool, bool) {
+                (<$g as AttachGlobalEntrySink>::try_sink().is_some(), <$g as AttachGlobalEntrySink>::is_attached())
             }
             fn set_tl(s: BoxEntrySink) -> ThreadLocalTestSinkGuard {
                 <$g>::set_test_sink(s)
@@ -141,8 +147,9 @@ fn worker<G: Glob>(rx: mpsc::Receiver<Cmd>) {
                 let had = guard.take().is_some();
                 let _ = reply.send(had);
             }
-            Cmd::Append { rt, kind, id, reply } => {
+            Cmd::Append { rt, kind, id, reply, probe } => {
                 let _enter = rt.as_ref().map(|r| r.enter());
+                let _ = probe.send(catch_unwind(AssertUnwindSafe(|| G::has_sink())).unwrap_or((false, false)));
                 let r = catch_unwind(AssertUnwindSafe(|| match kind % 3 {
                     0 => G::g_try_append(TestE(id)).is_ok(),
                     1 => {
@@ -341,14 +348,22 @@ fn run_history<G: Glob + 'static>(case: &Case) -> CaseResult {
                     seq += 1;
                     let dest = tl[t].or(r.and_then(|x| rt[x])).or(attached);
                     let (rtx, rrx) = mpsc::channel();
+                    let (ptx, prx) = mpsc::channel();
                     txs[t]
                         .send(Cmd::Append {
                             rt: r.map(|x| rts[x].clone()),
                             kind,
                             id,
                             reply: rtx,
+                            probe: ptx,
                         })
                         .unwrap();
+                    let (has_sink, is_att) = prx.recv().unwrap();
+                    vensure!(
+                        has_sink == dest.is_some() && is_att == dest.is_some(),
+                        "global:try-sink-disagrees-with-routing",
+                        "op {i}: on thread {t} (runtime {r:?}) try_sink().is_some() = {has_sink}, is_attached() = {is_att}, but the precedence gives destination {dest:?}"
+                    );
                     let res = rrx.recv().unwrap();
                     match (dest, res, kind % 3) {
                         (Some(d), Ok(true), _) => expected.push((d, id)),
@@ -876,7 +891,7 @@ pub fn run(ctx: &mut Ctx) {
     ctx.explore(
         SubCfg::new(
             "c17-routing",
-            "histories (0-40 ops) over attach (from the controller or from a worker thread, optionally inside a runtime - a thread's or runtime's test sink does not make the global 'attached') / drop attach handle / install+drop thread-local test sink on one of 3 worker threads / install+drop runtime test sink on one of 2 current-thread tokio runtimes / append (try_append, append, sink().append) from a chosen thread optionally inside a chosen runtime, incl. the panicking operations (attach while attached, second thread-local / runtime install, append with nothing attached) under catch_unwind; on a harness-declared global and on ServiceMetrics; a second global must not interfere. Oracle: reference state machine {attached, tl[t], rt[r]}: destination = thread-local else runtime else attached else handed back (try_append) / panic (append); after EVERY append the tagged collectors hold exactly the expected (destination, entry) list; panicking ops leave the model state unchanged and later ops still behave per model. Non-trivial = all three levels were installed at some time and >= 1 panic path was taken",
+            "histories (0-40 ops) over attach (from the controller or from a worker thread, optionally inside a runtime - a thread's or runtime's test sink does not make the global 'attached') / drop attach handle / install+drop thread-local test sink on one of 3 worker threads / install+drop runtime test sink on one of 2 current-thread tokio runtimes / append (try_append, append, sink().append) from a chosen thread optionally inside a chosen runtime, incl. the panicking operations (attach while attached, second thread-local / runtime install, append with nothing attached) under catch_unwind; on a harness-declared global and on ServiceMetrics; a second global must not interfere. Oracle: reference state machine {attached, tl[t], rt[r]}: destination = thread-local else runtime else attached else handed back (try_append) / panic (append); before every append try_sink() / is_attached() on that thread agree with the model destination; after EVERY append the tagged collectors hold exactly the expected (destination, entry) list; panicking ops leave the model state unchanged and later ops still behave per model. Non-trivial = all three levels were installed at some time and >= 1 panic path was taken",
             if q { 12_000 } else { 200_000 },
         )
         .shrink_iters(300)
